@@ -129,7 +129,13 @@ def discrete_case(rep, drv, rng, th, fixed=None):
 	try:
 		with warnings.catch_warnings():
 			warnings.simplefilter('ignore')
-			S_star, C_star = ssm_serial.optimize_base_stock_levels(**kw)
+			# demand_mean / demand_standard_deviation are documented as ignored when a demand_source is given: stale values passed next to it
+			# (an instance read off a network generically) change nothing -- decided by a function of the instance, in every second case
+			kw_call = dict(kw)
+			if (N + int(p) + sum(Ls) + len(kind)) % 2 == 0:
+				kw_call.update(demand_mean=float(ds.demand_distribution.mean()) + 7, demand_standard_deviation=2.5)
+				rep.count('ssm:stale-moments-next-to-a-demand-source')
+			S_star, C_star = ssm_serial.optimize_base_stock_levels(**kw_call)
 	except Exception as e:
 		import traceback
 		rep.diff('ssm-discrete', 'raised %s: %s' % (err_enum(e), traceback.format_exc()[-250:]), case, oracle=True, theorem=THEOREM); return
